@@ -618,6 +618,24 @@ M("r27-consing-inverted-test-benign", ["C18"], "benign",
   [("yaep.c", "  if (*entry == NULL)\n    {\n      *entry = (hash_table_entry_t) new_set;\n      n_sets++;\n      n_sets_start_sits += new_n_start_sits;\n      OS_TOP_FINISH (sets_os);\n    }\n  else\n    {\n      new_set = (struct set *) *entry;\n      OS_TOP_NULLIFY (sets_os);\n    }",
     "  if (*entry != NULL)\n    {\n      new_set = (struct set *) *entry;\n      OS_TOP_NULLIFY (sets_os);\n    }\n  else\n    {\n      n_sets++;\n      n_sets_start_sits += new_n_start_sits;\n      *entry = (hash_table_entry_t) new_set;\n      OS_TOP_FINISH (sets_os);\n    }")])
 
+# ---- seventh wave rules ---------------------------------------------------------------------------
+M("r4g-ensure-one-short", ["C12"], "break",
+  [("yaep.c", "      VLO_EXPAND (*check_dist_vlo, (dist + 1 - len) * sizeof (int));\n      for (i = len; i <= dist; i++)", "      VLO_EXPAND (*check_dist_vlo, (dist - len) * sizeof (int));\n      for (i = len; i < dist; i++)")],
+  "sit_dist_insert/")
+M("r25-use-without-release-function", ["C12", "C13", "C14"], "break",
+  [("yaep.c", "\t  if (parse_free != NULL)\n\t    VLO_ADD_MEMORY (tnodes_vlo, &alt, sizeof (alt));", "\t  VLO_ADD_MEMORY (tnodes_vlo, &alt, sizeof (alt));")], "use-of-tnodes_vlo")
+M("c03-nil-at-pop-without-own-node-test", ["C02", "C03"], "break",
+  [("yaep.c", "\t  if (parent_anode != NULL && rule->trans_len == 0 && anode == NULL)", "\t  if (parent_anode != NULL && rule->trans_len == 0)")], "nil-into-parent-slot")
+M("r28-vlo-boundary-only-when-moved", ["C19", "C18"], "break",
+  [("vlobject.c", "      vlo->vlo_start = new_vlo_start;\n    }\n  vlo->vlo_boundary = vlo->vlo_start + vlo_length;\n}\n\n/* The following function implements macro `VLO_ADD_STRING'", "      vlo->vlo_start = new_vlo_start;\n      vlo->vlo_boundary = vlo->vlo_start + vlo_length;\n    }\n}\n\n/* The following function implements macro `VLO_ADD_STRING'")],
+  "_VLO_tailor_function/vlo_boundary-after")
+M("r28-cxx-size-before-rounding", ["C19", "C18", "C16"], "break",
+  [("hashtab.cpp", "  this->_size = size;", "  this->_size = size - 1;")], "size-after-yaep_malloc")
+M("r28-os-boundary-includes-header", ["C19", "C18"], "break",
+  [("objstack.c", "  os->os_boundary = os->os_top_object_start + segment_length;", "  os->os_boundary = os->os_top_object_start + segment_length + sizeof (struct _os_segment);")], "_OS_expand_memory/os_boundary-after")
+M("r28-boundary-from-local-benign", ["C19", "C18"], "benign",
+  [("vlobject.c", "  vlo->vlo_boundary = vlo->vlo_start + vlo_length;\n}\n\n/* The following function implements macro `VLO_ADD_STRING'", "  vlo->vlo_boundary = new_vlo_start + vlo_length;\n}\n\n/* The following function implements macro `VLO_ADD_STRING'")])
+
 # ---- R8 / R2f (C16, C19) ----------------------------------------------------------------------------
 M("r8-revert-F14", ["C19", "C16"], "break", [("hashtab.cpp", "		  entry_ptr = first_deleted_entry_ptr;\n		  *entry_ptr = EMPTY_ENTRY;", "		  entry_ptr = first_deleted_entry_ptr;\n		  *entry_ptr = DELETED_ENTRY;")], "find_hash_table_entry~")
 M("r2f-revert-F15", ["C19", "C16"], "break", [("hashtab.cpp", "  ::operator delete (new_htab);", "  yaep_free (new_htab->alloc, new_htab);")], "expand_hash_table/new")
